@@ -26,7 +26,7 @@ type layout struct {
 	CIDOff  int // -1: no CID in the header
 	SeqOff  int
 	SeqLen  int
-	LenOff  int // -1: no length field
+	LenOff  int    // -1: no length field
 	Type    byte   // DTLS 1.2 outer type
 	Epoch   uint16 // DTLS 1.2: header epoch; DTLS 1.3: low two bits
 	Seq     uint64 // DTLS 1.2: header sequence number; DTLS 1.3: the clear record sequence number
@@ -63,9 +63,9 @@ type sess struct {
 	lay      layout
 	k12      refimpl.Keys12 // sender's write keys (DTLS 1.2)
 	k13      refimpl.Keys13 // sender's write keys (DTLS 1.3)
-	sndEpoch uint16 // sender's current write epoch
-	nextSeq  uint64 // sender's next record sequence number in that epoch (read before the genuine record is made)
-	analysed string // "" or why the reference could not open the genuine record
+	sndEpoch uint16         // sender's current write epoch
+	nextSeq  uint64         // sender's next record sequence number in that epoch (read before the genuine record is made)
+	analysed string         // "" or why the reference could not open the genuine record
 	rd       *world.Op
 }
 
@@ -252,7 +252,8 @@ func (s *sess) analyse() error {
 		rec, rest, err := refimpl.Open13(ref, s.k13, g, cl, seqClear)
 		switch {
 		case err != nil:
-			return setupErr("reference cannot open the genuine DTLS 1.3 record: %v", err)
+			// not this property's business (wire conformance is C10's): the forgeries below need no key
+			s.analysed = fmt.Sprintf("reference cannot open the genuine DTLS 1.3 record: %v", err)
 		case len(rest) != 0 || rec.Type != 23 || !bytes.Equal(rec.Payload, s.payload) || rec.Pad != int(s.cf.Pad) || rec.Seq != seqClear:
 			return setupErr("genuine DTLS 1.3 record opens to type %d seq %d pad %d payload %x (rest %d)", rec.Type, rec.Seq, rec.Pad, head(rec.Payload), len(rest))
 		}
@@ -316,7 +317,8 @@ func (s *sess) analyse() error {
 			return setupErr("genuine CBC+CID record does not decrypt to the payload: %v", derr)
 		}
 	case err != nil:
-		return setupErr("reference cannot open the genuine DTLS 1.2 record: %v", err)
+		// not this property's business (wire conformance is C10's): the keyless forgeries need no key
+		s.analysed = fmt.Sprintf("reference cannot open the genuine DTLS 1.2 record: %v", err)
 	case rec.Type != 23 || !bytes.Equal(rec.Payload, s.payload) || rec.Pad != int(s.cf.Pad):
 		return setupErr("genuine DTLS 1.2 record opens to type %d pad %d payload %x", rec.Type, rec.Pad, head(rec.Payload))
 	}
@@ -398,8 +400,8 @@ func (s *sess) inject(b []byte) {
 	s.w.Settle()
 }
 
-func be16(b []byte) int       { return int(binary.BigEndian.Uint16(b)) }
-func put16(b []byte, v int)   { binary.BigEndian.PutUint16(b, uint16(v)) }
-func clone(b []byte) []byte   { return append([]byte(nil), b...) }
-func cat(p ...[]byte) []byte  { return bytes.Join(p, nil) }
+func be16(b []byte) int        { return int(binary.BigEndian.Uint16(b)) }
+func put16(b []byte, v int)    { binary.BigEndian.PutUint16(b, uint16(v)) }
+func clone(b []byte) []byte    { return append([]byte(nil), b...) }
+func cat(p ...[]byte) []byte   { return bytes.Join(p, nil) }
 func rep(v byte, n int) []byte { return bytes.Repeat([]byte{v}, n) }
